@@ -23,7 +23,7 @@ ASSUMPTIONS = [
     'the written form of a sentence is the writer\'s own LexWriter output (write/parse fidelity is C12, not applicable here); the check concerns which nodes, worlds, markers and closure marks appear where',
     'timed-out tableaux have no tree and are outside the statement',
 ]
-COMPONENTS = dict(real='pytableaux.proof.writers (jinja text writer, doctree html/latex translators, templates), lang.writing', stub='node/branch hash provider (seeded)')
+COMPONENTS = dict(real='pytableaux.proof.writers (jinja text writer, doctree html/latex translators, templates), lang.writing', stub='node/branch hash provider (seeded); wall clock seam: any time / datetime name in a pytableaux module is driven by a virtual clock that jumps between the renders')
 
 def plan(tier):
     return dict(runs=1600 if tier == 'quick' else 48000, timeout=300 if tier == 'quick' else 3600)
@@ -126,10 +126,14 @@ def check_render(tab, rng):
             if fmt == 'html' and rng.random() < 0.5:
                 opts.update(wrapper=rng.random() < 0.5, inline_css=rng.random() < 0.3, classes=('x',) if rng.random() < 0.3 else ())
             try:
-                w = TabWriter(fmt, notn, **opts)
-                a = w(tab)
-                b = w(tab)
-                c = TabWriter(fmt, notn, **opts)(tab)
+                # the second and third render happen "an hour later" on the virtual wall clock
+                with proofsim.WallClock() as wall:
+                    w = TabWriter(fmt, notn, **opts)
+                    a = w(tab)
+                    wall.advance()
+                    b = w(tab)
+                    wall.advance(86400.0 * 40)
+                    c = TabWriter(fmt, notn, **opts)(tab)
             except Exception as e:
                 import traceback
                 site = proofcheck.raise_site(e)
